@@ -381,3 +381,16 @@ func fieldLoad(v ssa.Value) (ssa.Value, string, bool) {
 	}
 	return fa.X, st.Field(fa.Field).Name(), true
 }
+
+// fieldNameOf: the name of the field a FieldAddr addresses ("" if its base is not a pointer to a struct).
+func fieldNameOf(fa *ssa.FieldAddr) string {
+	pt, ok := fa.X.Type().Underlying().(*types.Pointer)
+	if !ok {
+		return ""
+	}
+	st, ok := pt.Elem().Underlying().(*types.Struct)
+	if !ok {
+		return ""
+	}
+	return st.Field(fa.Field).Name()
+}
